@@ -1113,6 +1113,12 @@ class AutoDriver:
         acalls = [(e[1], e[2]) for e in alog if e[0] == "state"]
         if not self._last_state_rule(alog, now, op):
             return False
+        # absolute (no twin): every argument a state function receives has the documented type
+        for n_, a_ in acalls:
+            for p_, v_ in a_.items():
+                self.acc.checks += 1
+                if (p_ == "initial_call" and type(v_) is not bool) or (p_ in ("tm", "state_tm") and type(v_) is not float):
+                    return self.fail("arg-type", f"{n_}: parameter {p_} received {v_!r}", op)
         if self.ended:
             self.post_end += 1
             self.ev("auto-post-end-iteration")
